@@ -3,6 +3,8 @@
 package run
 
 import (
+	"context"
+	"encoding/json"
 	"fmt"
 	"os"
 	"os/exec"
@@ -356,3 +358,269 @@ func TestInterrupt(t *testing.T) {
 		})
 	})
 }
+
+// ---- C06 ----------------------------------------------------------------------
+
+// badOuts returns the outputs of the job with one value replaced by one that
+// is definitely not of the declared type ("" if no such replacement exists).
+func badOuts(prog *mrogen.Program, j *simrun.Job, outs *jsonx.Obj, pick int) (string, string) {
+	u := refsem.ExtUniverse(prog)
+	n := len(j.Stage.Outs)
+	for k := 0; k < n; k++ {
+		p := j.Stage.Outs[(pick+k)%n]
+		var bad any
+		switch {
+		case p.T.Arr > 0 || p.T.Map > 0:
+			bad = "not a collection"
+		case p.T.Base == "int" || p.T.Base == "float":
+			bad = "not a number"
+		case p.T.Base == "bool":
+			bad = jsonNumber("3")
+		case p.T.Base == "string" || p.T.Base == "file" || p.T.Base == "path" || u.IsFileType(p.T.Base):
+			bad = []any{jsonNumber("7")}
+		case p.T.Base == "map":
+			bad = jsonNumber("5")
+		default:
+			bad = "not a struct"
+		}
+		if v := refsem.Valid(u, p.T, bad); v.OK || v.Ambiguous {
+			continue
+		}
+		r := jsonx.NewObj()
+		for i, key := range outs.Keys {
+			if key == p.Name {
+				r.Set(key, bad)
+			} else {
+				r.Set(key, outs.Vals[i])
+			}
+		}
+		return string(jsonx.Marshal(r)), p.Name
+	}
+	return "", ""
+}
+
+// TestFaults: C06 on the in-process engine.  One generated job ends in a
+// generated failure; the pipestance must end failed and name the stage, no
+// dependent may start, and after a restart without the fault only work that
+// had not completed is executed and the result is that of a fault-free run.
+func TestFaults(t *testing.T) {
+	root := workRoot(t)
+	propOverride = "C06"
+	defer func() { propOverride = "" }()
+	rapid.Check(t, func(t *rapid.T) {
+		defer func() {
+			if p := recover(); p != nil {
+				if _, ok := p.(surveySkip); !ok {
+					panic(p)
+				}
+			}
+		}()
+		prog := mrogen.GenProgram(t, restartCfg())
+		for k := range excluded {
+			delete(excluded, k)
+		}
+		rc, ix, _, done := newCase(t, root, "fault", prog, "C06")
+		if rc == nil {
+			return
+		}
+		defer done()
+		rc.persist = "C06/mrp-aborts"
+		defer stats.InflightDone()
+		nFaults := rapid.IntRange(1, 2).Draw(t, "faults")
+		var classes []string
+		completedBefore := map[string]bool{}
+		superseded := map[*simrun.Job]bool{}
+		rc.onSubmit = func(j *simrun.Job) {
+			if completedBefore[j.Identity()] {
+				fail(t, "C06", "completed-job-executed-again", "after the restart job %s is executed again although it had completed before the failure\n%s", j, rc.describe())
+			}
+			// an earlier attempt of the same job no longer counts
+			for _, o := range rc.sim.Jobs {
+				if o != j && o.Identity() == j.Identity() {
+					superseded[o] = true
+				}
+			}
+		}
+		nontrivial := false
+		producers := map[string]bool{}
+		for _, m := range rc.model.Jobs {
+			for _, d := range ix.trueDeps[m.Key()] {
+				if p := refsem.DepCallPath(d); p != m.CallPath {
+					producers[p] = true
+				}
+			}
+		}
+		for f := 0; f < nFaults; f++ {
+			site := rapid.IntRange(0, max(0, len(rc.model.Jobs)-1-len(completedBefore))).Draw(t, "site")
+			if len(completedBefore) >= len(rc.model.Jobs) {
+				break
+			}
+			var failed *simrun.Job
+			kind, detail := "", ""
+			finishes := 0
+			rc.finish = func(j *simrun.Job) bool {
+				if failed != nil {
+					return false
+				}
+				finishes++
+				if finishes <= site {
+					return false
+				}
+				// prefer a call something depends on (up to three more
+				// finishes are let through while looking for one)
+				if !producers[j.CallPath] && finishes <= site+3 && len(rc.sim.Pending()) > 1 {
+					return false
+				}
+				kinds := []string{"errors", "errors", "assert"}
+				switch j.Phase {
+				case "main", "join":
+					if len(j.Stage.Outs) > 0 {
+						// (a stage without outputs is not asked for any)
+						kinds = append(kinds, "invalid-outs", "missing-key", "wrong-type")
+					}
+				case "split":
+					kinds = append(kinds, "bad-stage-defs")
+				}
+				kind = rapid.SampledFrom(kinds).Draw(t, "kind")
+				var err error
+				switch kind {
+				case "errors":
+					detail = rapid.SampledFrom([]string{"signal: killed", "exit status 1", "Traceback (most recent call last):\n  File \"x.py\", line 1\nValueError: boom", "out of memory"}).Draw(t, "errText")
+					err = rc.sim.Fail(j, "errors", detail)
+				case "assert":
+					detail = "ASSERT:the input is not what this stage accepts"
+					err = rc.sim.Fail(j, "assert", detail)
+				case "invalid-outs":
+					err = rc.sim.Fail(j, "invalid-outs", "")
+				case "missing-key", "wrong-type":
+					outs, cerr := rc.sim.Compute(j)
+					if cerr != nil {
+						t.Fatalf("INFRA: %v", cerr)
+					}
+					raw := ""
+					if kind == "wrong-type" {
+						raw, detail = badOuts(prog, j, outs, rapid.IntRange(0, 5).Draw(t, "badOut"))
+					}
+					if raw == "" {
+						kind = "missing-key"
+						r := jsonx.NewObj()
+						drop := rapid.IntRange(0, len(outs.Keys)-1).Draw(t, "dropKey")
+						for i, key := range outs.Keys {
+							if i != drop {
+								r.Set(key, outs.Vals[i])
+							} else {
+								detail = key
+							}
+						}
+						raw = string(jsonx.Marshal(r))
+					}
+					err = rc.sim.Fail(j, "raw:"+raw, "")
+				case "bad-stage-defs":
+					detail = rapid.SampledFrom([]string{`[1,2]`, `{"chunks": 5, "join": {}}`, `{"chunks": [{"__mem_gb": "a lot"}]`, `"x"`}).Draw(t, "defs")
+					err = rc.sim.Fail(j, "raw:"+detail, "")
+				}
+				if err != nil {
+					t.Fatalf("INFRA: %v", err)
+				}
+				failed = j
+				rc.logf("FAULT %s in %s (%s)", kind, j, detail)
+				return true
+			}
+			st := rc.drive(t, ix)
+			if failed == nil {
+				// the run ended before the chosen site was reached
+				if st != core.Complete && st != core.DisabledState {
+					fail(t, "C06", "run-failed-without-fault", "state %q: %s\n%s", st, rc.sim.FatalError(), rc.describe())
+				}
+				break
+			}
+			if st != core.Failed {
+				fail(t, "C06", "success-despite-failure", "job %s ended with %s (%s) but the pipestance ends %q\n%s", failed, kind, detail, st, rc.describe())
+			}
+			fq, _, _, log, _, paths := rc.sim.PS.GetFatalError()
+			if !strings.HasPrefix(fq, "ID.sim."+failed.CallPath) {
+				var states []string
+				for _, n := range rc.sim.PS.SerializeState(context.Background()) {
+					if n.State == core.Failed || n.Error != nil {
+						states = append(states, fmt.Sprintf("%s state=%s error=%v", n.Fqname, n.State, n.Error != nil))
+					}
+				}
+				fail(t, "C06", "error-names-wrong-stage", "job %s failed (%s) but the reported error names %q (log %q, paths %v); failed nodes: %v\n%s", failed, kind, fq, stats.Trunc(log, 200), paths, states, rc.describe())
+			}
+			if (kind == "errors" || kind == "assert") && !strings.Contains(log, strings.SplitN(detail, "\n", 2)[0]) {
+				fail(t, "C06", "error-text-lost", "job %s failed with %q but the reported log is %q\n%s", failed, detail, stats.Trunc(log, 300), rc.describe())
+			}
+			classes = append(classes, "kind:"+kind, "phase:"+failed.Phase)
+			// dependents / independents of the failed call (for the classes)
+			dep, indep := false, false
+			for _, m := range rc.model.Jobs {
+				if m.CallPath == failed.CallPath {
+					continue
+				}
+				isDep := false
+				for _, d := range ix.trueDeps[m.Key()] {
+					if refsem.DepCallPath(d) == failed.CallPath {
+						isDep = true
+					}
+				}
+				if isDep {
+					dep = true
+				} else {
+					indep = true
+				}
+			}
+			if dep {
+				classes = append(classes, "has-dependents")
+			}
+			if indep {
+				classes = append(classes, "has-independents")
+			}
+			if dep && indep {
+				nontrivial = true
+			}
+			// mrp gives up: local jobs die with it, the lock is released
+			for _, j := range rc.sim.Pending() {
+				if j == failed {
+					continue
+				}
+				if rapid.Bool().Draw(t, "inFlightStarted") && !j.Started {
+					if err := rc.sim.StartWithPid(j, simrun.DeadPid()); err != nil {
+						t.Fatalf("INFRA: %v", err)
+					}
+				}
+			}
+			rc.sim.PS.Unlock()
+			if rc.sim.Locked() {
+				fail(t, "C06", "lock-left-behind", "after the failure was handled the pipestance is still locked\n%s", rc.describe())
+			}
+			for _, j := range rc.sim.Jobs {
+				// (when the stage's outputs were rejected, the fork that
+				// produced them starts over: its jobs are the failed work)
+				redo := kind != "errors" && kind != "assert" && j.CallPath == failed.CallPath && j.ForkName == failed.ForkName
+				if redo {
+					superseded[j] = true
+					delete(completedBefore, j.Identity())
+				}
+				if j.Done && !superseded[j] {
+					completedBefore[j.Identity()] = true
+				}
+			}
+			rc.logf("mrp exits; restart without the fault")
+			rc.finish = nil
+			rc.reattach(t, "C06", nil)
+		}
+		rc.finish = nil
+		st := rc.drive(t, ix)
+		if st != core.Complete && st != core.DisabledState {
+			fail(t, "C06", "restart-does-not-complete", "with the fault removed the pipestance ends %q: %s\n%s", st, rc.sim.FatalError(), rc.describe())
+		}
+		finalOutsCheck(t, rc, "C06")
+		rc.sim.Cleanup()
+		sort.Strings(classes)
+		stats.Case("C06", nontrivial, stats.Digest(rc.src, strings.Join(rc.history, "|")), classes, func() any {
+			return map[string]any{"program": stats.Trunc(rc.src, 1200), "faults": classes, "schedule": stats.Trunc(strings.Join(rc.history, "; "), 800)}
+		})
+	})
+}
+
+func jsonNumber(s string) any { return json.Number(s) }
